@@ -31,13 +31,17 @@ fn glue() -> &'static Glue {
 }
 
 pub fn run(target: &str, f: impl FnOnce() -> Result<(), Failure>) {
+    run_for("C08", target, f)
+}
+
+pub fn run_for(property: &str, target: &str, f: impl FnOnce() -> Result<(), Failure>) {
     let g = glue();
     let r = match guard(f) {
         Ok(r) => r,
         Err(p) => Err(panic_failure("uncaught", &p, Value::Null)),
     };
     if let Err(fl) = r {
-        if !g.strict && g.known.match_open("C08", &fl.signature).is_some() {
+        if !g.strict && g.known.match_open(property, &fl.signature).is_some() {
             return;
         }
         eprintln!("FUZZ-FAILURE target={target} signature={} message={}", fl.signature, fl.message);
@@ -97,4 +101,100 @@ pub fn structured_verbose(data: &[u8]) -> Result<(), Failure> {
     let r = c08::run_pipeline(&t.schema, &t.ops, &g.cfgs[0], &Value::Null).map(|r| println!("reached {r:?}"));
     println!("pipeline in {:?}", t1.elapsed());
     r
+}
+
+/// C07 differential oracle: the reference parser accepts => nitrogql accepts, builds the same
+/// abstract document and reports token-true positions. Texts using a feature excluded by an open
+/// known finding (block strings that need cooking, body-less object / member-less union types) are
+/// skipped, so anything reported is a different violation.
+pub fn parse_diff(text: &str) -> Result<(), Failure> {
+    use crate::conv::*;
+    use crate::model::*;
+    use crate::refparse;
+    use nitrogql_parser::{parse_operation_document, parse_type_system_document};
+    if text.len() > 8192 || c08::nesting(text) > 64 {
+        return Ok(());
+    }
+    let g = glue();
+    if text.contains("\"\"\"") && g.excluded.contains("block_string_cooked") {
+        return Ok(());
+    }
+    // a lone CR is a line terminator in the spec but not for pest positions (documented abstention)
+    let lone_cr = {
+        let b = text.as_bytes();
+        (0..b.len()).any(|i| b[i] == b'\r' && b.get(i + 1) != Some(&b'\n'))
+    };
+    let detail = serde_json::json!({"text": text});
+    if let Ok(expected) = refparse::parse_op_doc(text) {
+        let expected = crate::props::c07::normalize_op_doc(&expected);
+        let got = guard(|| parse_operation_document(text).map(|d| c_op_doc_ext(&d, &mut PosSink::default())))
+            .map_err(|p| panic_failure("parse_operation_document", &p, detail.clone()))?;
+        let got = got.map(|m| m);
+        match got {
+            Ok(m) if m == expected => {
+                if !lone_cr && !text.contains('\u{FEFF}') {
+                    let mut ps = PosSink::default();
+                    if let Ok(d) = parse_operation_document(text) {
+                        let _ = c_op_doc_ext(&d, &mut ps);
+                    }
+                    check_positions_lex(text, true, &ps.recs, &detail)?;
+                }
+            }
+            Ok(m) => return Err(Failure::new("parse-diff:wrong-operation-document", format!("expected {expected:?}\n got {m:?}"), detail)),
+            Err(e) => return Err(Failure::new("parse-diff:rejects-valid-operation-document", e.into_message(), detail)),
+        }
+    }
+    if let Ok(expected) = refparse::parse_ts_doc(text) {
+        let bare = expected.iter().any(|d| match d {
+            MTsDef::Type(t) | MTsDef::TypeExt(t) => match t.kind {
+                Kind::Object | Kind::Interface | Kind::Input => t.fields.is_empty() && t.input_fields.is_empty(),
+                Kind::Union => t.members.is_empty(),
+                Kind::Enum => t.values.is_empty(),
+                Kind::Scalar => false,
+            },
+            _ => false,
+        });
+        if bare && (g.excluded.contains("bare_object_type") || g.excluded.contains("bare_union_type")) {
+            return Ok(());
+        }
+        let got = guard(|| parse_type_system_document(text).map(|d| c_ts_ext_doc(&d, &mut PosSink::default())))
+            .map_err(|p| panic_failure("parse_type_system_document", &p, detail.clone()))?;
+        match got {
+            Ok(m) if m == expected => {
+                if !lone_cr && !text.contains('\u{FEFF}') {
+                    let mut ps = PosSink::default();
+                    if let Ok(d) = parse_type_system_document(text) {
+                        let _ = c_ts_ext_doc(&d, &mut ps);
+                    }
+                    check_positions_lex(text, false, &ps.recs, &detail)?;
+                }
+            }
+            Ok(m) => return Err(Failure::new("parse-diff:wrong-type-system-document", format!("expected {expected:?}\n got {m:?}"), detail)),
+            Err(e) => return Err(Failure::new("parse-diff:rejects-valid-type-system-document", e.into_message(), detail)),
+        }
+    }
+    Ok(())
+}
+
+/// every reported position must be the start of a token of the right text (reference lexer)
+fn check_positions_lex(text: &str, ext_import: bool, recs: &[crate::conv::PosRec], detail: &Value) -> Result<(), Failure> {
+    let Ok(toks) = crate::refparse::lex(text, ext_import) else { return Ok(()) };
+    for rec in recs {
+        if rec.builtin {
+            return Err(Failure::new("parse-diff:position-builtin", format!("{} carries a builtin position", rec.what), detail.clone()));
+        }
+        let ok = toks.iter().any(|t| {
+            t.line == rec.line
+                && (t.col == rec.col || t.col16 == rec.col)
+                && (if rec.expect == "\"" { t.raw.starts_with('"') } else if rec.what == "operation" { t.raw == rec.expect || t.raw == "{" } else { t.raw == rec.expect })
+        });
+        if !ok {
+            return Err(Failure::new(
+                format!("parse-diff:position-not-at-token:{}", rec.what),
+                format!("{} reported at {}:{} but no token {:?} starts there", rec.what, rec.line, rec.col, rec.expect),
+                detail.clone(),
+            ));
+        }
+    }
+    Ok(())
 }
